@@ -26,6 +26,7 @@ def flagged_program(rng, i):
     with_main = rng.random() < 0.8
     for name, params, ret, body, result, _ in p["funcs"]:
         if name == "main" and not with_main: name = "notmain"
+        if name == "main" and rng.random() < 0.3: params = [("argc", "i32")] + list(params)     # main may take parameters
         pub = name != "main" and rng.random() < 0.5
         ext = name != "main" and all(t in ABI for _, t in params) and (ret is None or ret in ABI) and rng.random() < 0.3
         out += "%s%sfn %s(%s)%s\n{\n" % ("pub " if pub else "", "extern " if ext else "", name,
